@@ -280,7 +280,22 @@ Fixpoint parse_workspace (target_os ignored_types : list str) (ho_file : list im
       Ok (match o with Some pd => (cn, pd) :: rest | None => rest end)
     end
   end.
+
+(* the same sources in single-file mode (`-o`): every file is parsed with multi_file = false, the crate
+   name is SINGLE_FILE_CRATE_NAME for all of them (parse.rs:26); results in arrival order *)
+Fixpoint parse_workspace_single (target_os : list str) (ws : list ws_entry) : outcome (list parsed) :=
+  match ws with
+  | [] => Ok []
+  | e :: r =>
+    do o <- parse_file uc (we_tstr e) target_os (we_file e);
+    do rest <- parse_workspace_single target_os r;
+    Ok (match o with Some pd => pd :: rest | None => rest end)
+  end.
 End U.
+
+(* the files multi-file mode looks at: those under some <crate>/src *)
+Definition crate_entries (ws : list ws_entry) : list ws_entry :=
+  filter (fun e => match find_crate_name (we_path e) with Some _ => true | None => false end) ws.
 
 (* the per-crate import set (the union the collector's `extend` builds) in iteration order *)
 Definition imports_iter (ho_crate : list imported -> list imported) (pd : parsed) : list imported :=
